@@ -311,6 +311,13 @@ class ExecBase:
     def lookup(s, name, p, node=None):
         if name in p.env:
             return p.env[name]
+        if name in p.ghost.get("$globals", ()) and s.unit.bindings.get("$module") is not None:
+            # a module global declared `global` in this function: one cell shared by all threads.  The unit may model
+            # reads as volatile (option global_read: fn(ex, path, name) may havoc the cell before the read)
+            hook = s.unit.options.get("global_read")
+            if hook is not None:
+                hook(s, p, name)
+            return SV(p.getf(s.unit.bindings["$module"].t, name))
         b = s.unit.bindings.get(name)
         if b is not None:
             return b if isinstance(b, SV) else SV(fresh("model"), model=b, name=name)
@@ -329,7 +336,7 @@ class ExecBase:
             # evaluate the interpolated expressions for their effects (none are expected) and return an opaque str
             vals = [v.value for v in n.values if isinstance(v, ast.FormattedValue)]
             return s.seq(vals, p, lambda p1, vs: [("ok", p1, s.new_str(p1))])
-        parts = [v.value if isinstance(v, ast.FormattedValue) else v for v in n.values]
+        parts = list(n.values)            # FormattedValue nodes go through e_FormattedValue (conversion !r)
         def k(p1, vs):
             strs = [s.to_string(p1, v) for v in vs]
             content = strs[0] if len(strs) == 1 else (Concat(*strs) if strs else StringVal(""))
@@ -337,6 +344,9 @@ class ExecBase:
         return s.seq(parts, p, k)
 
     def e_FormattedValue(s, n, p):
+        if n.conversion == ord("r") and s.precise_strings:
+            # {x!r}: the repr of x, also when x is itself a str (opaque: repr_of)
+            return s.seq([n.value], p, lambda p1, vs: [("ok", p1, s.new_str(p1, repr_of(vs[0].t)))])
         return s.ev(n.value, p)
 
     def e_Tuple(s, n, p):
